@@ -276,6 +276,12 @@ pub fn contract() -> Box<dyn Contract<Empty>> {
     )
 }
 
+/// the scripted contract WITHOUT the optional entry points (no reply, sudo, migrate): a reply that
+/// is due on it cannot be handled, so the failure — or the success — cannot be absorbed there
+pub fn contract_minimal() -> Box<dyn Contract<Empty>> {
+    Box::new(ContractWrapper::new(execute, instantiate, query))
+}
+
 /// a second code: same behaviour, but every execute additionally writes `v2=1` (to tell codes apart
 /// after a migration)
 pub fn execute_v2(deps: DepsMut, env: Env, info: MessageInfo, msg: Script) -> StdResult<Response> {
